@@ -103,6 +103,8 @@ func (e *Env) install() {
 		return d + e.TimerLatency
 	}
 	layer4.VerifTimerSkewHook, l4proxy.VerifTimerSkewHook, l4tee.VerifTimerSkewHook, l4throttle.VerifTimerSkewHook, socks5.VerifTimerSkewHook = skew, skew, skew, skew, skew
+	syncp := func(site string) { e.S.Park("t:" + site) }
+	layer4.VerifSyncHook, l4proxy.VerifSyncHook, l4tee.VerifSyncHook, l4throttle.VerifSyncHook, socks5.VerifSyncHook = syncp, syncp, syncp, syncp, syncp
 	layer4.VerifGoHook, layer4.VerifYieldHook, layer4.VerifPickHook = goHook, yield, pick
 	layer4.VerifPoolGetHook, layer4.VerifPoolPutHook = e.Pool.Get, e.Pool.Put
 	l4proxy.VerifGoHook, l4proxy.VerifYieldHook, l4proxy.VerifPickHook = goHook, yield, pick
@@ -135,6 +137,7 @@ func (*simDenied) Error() string { return "simulated: operation not available" }
 
 func (e *Env) uninstall() {
 	layer4.VerifTimerSkewHook, l4proxy.VerifTimerSkewHook, l4tee.VerifTimerSkewHook, l4throttle.VerifTimerSkewHook, socks5.VerifTimerSkewHook = nil, nil, nil, nil, nil
+	layer4.VerifSyncHook, l4proxy.VerifSyncHook, l4tee.VerifSyncHook, l4throttle.VerifSyncHook, socks5.VerifSyncHook = nil, nil, nil, nil, nil
 	layer4.VerifGoHook, layer4.VerifYieldHook, layer4.VerifPickHook = nil, nil, nil
 	layer4.VerifPoolGetHook, layer4.VerifPoolPutHook = nil, nil
 	l4proxy.VerifGoHook, l4proxy.VerifYieldHook, l4proxy.VerifPickHook = nil, nil, nil
